@@ -1,6 +1,7 @@
 //! rlh — correspondence harness: runs the risinglight implementation on cases read from stdin
 //! (one JSON value per line) and prints one JSON value per line.
 mod c06;
+mod c18;
 mod sql;
 mod util;
 
@@ -22,6 +23,8 @@ fn main() {
         let v: serde_json::Value = serde_json::from_str(&line).expect("bad json");
         let r = match cmd {
             "c06" => util::guard(|| c06::run(&v)),
+            "c18" => util::guard(|| c18::run(&v)),
+            "crc" => util::guard(|| c18::crc(&v)),
             "sql" => util::guard(|| sql::run(&v)),
             _ => panic!("unknown command {cmd}"),
         };
